@@ -46,6 +46,7 @@ class G:
         self.sysnames = {}
         self.files_in = {}
         self.uses_input = False
+        self.localpool = set()
 
     def fresh(self, hint=None):
         for n in self.pool:
@@ -59,6 +60,22 @@ class G:
             if n not in self.used:
                 self.used.add(n)
                 return n
+
+    def local_name(self, m):
+        """Name for a formal or local of procedure meta m: sometimes one that shadows a global or repeats a name
+        used locally in another procedure (scoping is part of C01)."""
+        scope = m.setdefault("scope", set())
+        if self.r.random() < 0.3:
+            cands = [n for n in list(self.gvars) + [k for k in self.gvals if k not in self.sysnames.values()] + list(self.garrays) +
+                     sorted(self.localpool) if n not in scope and n not in xref.KEYWORDS]
+            if cands:
+                n = self.r.choice(cands)
+                scope.add(n)
+                return n
+        n = self.fresh()
+        scope.add(n)
+        self.localpool.add(n)
+        return n
 
     # ---------------------------------------------------------------- constants
     def literal(self, v):
@@ -215,18 +232,20 @@ class G:
         kind = r.choice(["proc", "func", "func"])
         nf = r.choice([0, 1, 1, 2, 2, 3, 4]) if r.random() < 0.93 else r.choice([5, 7, 10])
         fm = []
+        m = {"kind": kind, "name": self.fresh(), "fm": fm, "idx": idx, "locals": [], "impure": r.random() < 0.3}
         for _ in range(nf):
             if r.random() < 0.25 and (self.garrays or True):
-                fm.append(("array", self.fresh(), {"minlen": r.choice([1, 1, 2, 3]), "writable": r.random() < 0.4}))
+                fm.append(("array", self.local_name(m), {"minlen": r.choice([1, 1, 2, 3]), "writable": r.random() < 0.4}))
             else:
-                fm.append(("val", self.fresh(), {}))
-        return {"kind": kind, "name": self.fresh(), "fm": fm, "idx": idx, "locals": [], "impure": r.random() < 0.3}
+                fm.append(("val", self.local_name(m), {}))
+        return m
 
     def rec_meta(self, idx):
-        fm = [("val", self.fresh(), {})]
+        m = {"kind": "func", "name": self.fresh(), "fm": [], "idx": idx, "locals": [], "rec": True, "impure": False}
+        m["fm"].append(("val", self.local_name(m), {}))
         if self.r.random() < 0.5:
-            fm.append(("val", self.fresh(), {}))
-        return {"kind": "func", "name": self.fresh(), "fm": fm, "idx": idx, "locals": [], "rec": True, "impure": False}
+            m["fm"].append(("val", self.local_name(m), {}))
+        return m
 
     # ---------------------------------------------------------------- contexts
     def ctx(self, m):
@@ -487,7 +506,8 @@ class G:
         nl = r.choice([0, 1, 1, 2, 3]) if not m.get("nolocals") else 0
         inits = []
         for _ in range(nl):
-            n = self.fresh()
+            n = self.local_name(m)
+            c["arrays"].pop(n, None)
             if r.random() < 0.15:
                 e, v = self.const_expr()
                 if xref.INT_MIN < v <= xref.INT_MAX:
